@@ -22,11 +22,12 @@ def _wf_tree(E, st, leaves, mapping):
     row = z3.Const("rho!wf", models.Row)
     t = z3.Int("t!wf")
     L = z(leaves.length)
+    at = (lambda q: leaves.get(q)) if hasattr(leaves, "get") else (lambda q: z(leaves.item(q)))
     return {"at_least_one_leaf": L >= 1,
-            "leaves_are_nodes_of_the_tree": z3.ForAll([t], z3.Implies(z3.And(t >= 0, t < L), z3.And(leaves.get(t) >= 0, leaves.get(t) < R.nodesF(st)))),
+            "leaves_are_nodes_of_the_tree": z3.ForAll([t], z3.Implies(z3.And(t >= 0, t < L), z3.And(at(t) >= 0, at(t) < R.nodesF(st)))),
             "every_row_ends_in_exactly_one_leaf": z3.ForAll([row, t], z3.And(
                 lfF(st, row) >= 0, lfF(st, row) < L,
-                z3.Implies(z3.And(t >= 0, t < L), (R.pathF(st, row, leaves.get(t)) == 1) == (t == lfF(st, row)))))}
+                z3.Implies(z3.And(t >= 0, t < L), (R.pathF(st, row, at(t)) == 1) == (t == lfF(st, row)))))}
 
 
 def _bins_key(E, st, X, r, width):
@@ -314,11 +315,83 @@ class FitBucket(Contract):
         "training_rows_are_exactly_the_buckets_rows", z3.BoolVal(True))}
 
 
-@contract(P + "::PiecewiseEstimator._mapping_train", "C08", assumed=True)
+applyF = z3.Function("apply__", models.Est, models.Row, z3.IntSort())        # ghost: the leaf (node id) the fitted tree binner routes a row to
+
+
+@contract(P + "::PiecewiseEstimator._mapping_train", "C08")
 class MappingTrain(Contract):
-    """ASSUMED here: returns (association, mapping, leaves) with one bucket id in [0, nb) per training row and mapping a dict with nb entries"""
+    """TREE BINNER, PROVED (the real loop over the leaves; `mapping` is a dictionary of unbounded symbolic size): every training row gets
+    the bucket number of its leaf; buckets are numbered 0 .. len(mapping)-1 without repetition, one per leaf that holds a training row;
+    leaves lists all leaves of the tree.  This establishes the well-formedness transform_bins / predict rely on.  The discretizer
+    branch (sets of tuples, sorted) and the summary used by fit are the bounded part: see result()."""
+    symbolic_dicts = {"mapping": "int"}
+    max_paths = 20000
+
+    def setup(self, E, v):
+        m = E.size("node_count", 1)
+        binner = models.new_estimator(E, "binner_", methods=ESTM + ("transform", "decision_path"), fitted=True)
+        binner.fields["$fitted_attrs"] = {"tree_"}
+        t = Obj("Tree", tag="Tree")
+        cl, cr = E.nd("children_left", (m,), "int"), E.nd("children_right", (m,), "int")
+        t.fields.update(cnt=m, node_count=m, children_left=cl, children_right=cr)
+        t.fields["$children_left"], t.fields["$children_right"] = cl, cr
+        binner.fields["tree_"] = t
+        s = E.new_obj(P + "::PiecewiseRegressor", dict(binner=models.new_estimator(E, "binner", methods=ESTM), estimator=models.new_estimator(E, "estimator", methods=ESTM),
+                                                       n_jobs=None, verbose=False, binner_=binner))
+        return dict(self=s, X=E.nd("X", (E.size("n", 1), E.size("d", 1))), binner=binner, _m=m, _cl=cl, _cr=cr)
+
+    def requires(self, E, a):
+        if "_m" not in a:
+            return {}
+        st = a.binner.fields["$state"]
+        R = E.registry
+        row, j = z3.Const("rho!mt", models.Row), z3.Int("j!mt")
+        m = z(a._m)
+        isleaf = lambda q: z3.And(a._cl.get(q) <= q, a._cr.get(q) <= q)
+        leafmask = NdArr.from_fn("isleaf", (a._m,), "bool", isleaf)
+        leafmask.canonical_key = True
+        fm, n_, K, rank, unrank = R.mask_info(E, leafmask)
+        a["_leaf"] = (isleaf, K, rank, unrank)
+        # ghost definition: the position of a row's leaf in `leaves` is the rank of that leaf among the leaves of the tree
+        E.assume(z3.ForAll([row], lfF(st, row) == rank(applyF(st, row)), patterns=[lfF(st, row)]))
+        # ASSUMED about the fitted scikit-learn tree: one decision_path column per node, exactly one leaf marked per row
+        return {"decision_path_has_one_column_per_node": R.nodesF(st) == m,
+                "every_row_ends_in_exactly_one_leaf": z3.ForAll([row, j], z3.And(
+                    applyF(st, row) >= 0, applyF(st, row) < m, isleaf(applyF(st, row)),
+                    z3.Implies(z3.And(j >= 0, j < m), z3.Or(R.pathF(st, row, j) == 0, R.pathF(st, row, j) == 1)),
+                    z3.Implies(z3.And(j >= 0, j < m, isleaf(j)), (R.pathF(st, row, j) == 1) == (j == applyF(st, row)))))}
+
+    def old(self, E, a):
+        return dict(X=a.X.snapshot(), w=a.X.cell.writes) if "_m" in a else dict(callsite=True)
+
+    @staticmethod
+    def _facts(E, X, st, mp, assoc, ntree, done, rank):
+        """done(j): leaf j has already been handled by the loop"""
+        key, k2, r = z3.Int(models.fresh_name("key")), z3.Int(models.fresh_name("k2")), z3.Int(models.fresh_name("r"))
+        n = z(X.shape[0])
+        leaf_of = lambda rr: applyF(st, models.row_of(E, X, rr))
+        return {
+            "bucket_numbers_are_0_to_ntree_minus_1": z3.And(z(ntree) >= 0, z(mp.count) == z(ntree), z3.ForAll([key], z3.Implies(
+                z3.Select(mp.member, key), z3.And(z3.Select(mp.value, key) >= 0, z3.Select(mp.value, key) < z(ntree), done(key))))),
+            "no_bucket_number_is_used_twice": z3.ForAll([key, k2], z3.Implies(
+                z3.And(z3.Select(mp.member, key), z3.Select(mp.member, k2), key != k2), z3.Select(mp.value, key) != z3.Select(mp.value, k2))),
+            "rows_of_handled_leaves_carry_their_buckets_number_the_others_minus_one": z3.ForAll([r], z3.Implies(z3.And(r >= 0, r < n), z3.If(
+                done(leaf_of(r)), z3.And(z3.Select(mp.member, leaf_of(r)), assoc.get(r) == z3.ToReal(z3.Select(mp.value, leaf_of(r)))), assoc.get(r) == -1)))}
+
+    @staticmethod
+    def _inv(E, L):
+        s, X = L["self"], L["X"]
+        st = L["binner"].fields["$state"]
+        leaves = L["leaves"]
+        mask, rank, unrank = leaves.filter_of
+        fm = E.registry.mask_info(E, mask)[0]
+        done = lambda j: z3.And(j >= 0, j < z(mask.shape[0]), fm.get(j), rank(j) < z(L.k))
+        return MappingTrain._facts(E, X, st, L["mapping"], L["association"], L["ntree"], done, rank)
+    loops = {0: _inv.__func__}
 
     def result(self, E, a, old):
+        # summary used by fit (bounded in the number of buckets there: 1..2 entries of a concrete dictionary)
+        n = a.X.shape[0]
         n = a.X.shape[0]
         nb = E.ps.get("c08_nb", 2)
         assoc = NdArr.fresh("association", (n,), "real")
@@ -328,6 +401,36 @@ class MappingTrain(Contract):
         mapping = {("leaf", i): i for i in range(nb)}
         E.ps["c08_train_assoc"] = assoc
         return (assoc, mapping, [("leaf", i) for i in range(nb)])
+
+    def ensures(self, E, a, res, old):
+        if old.get("callsite"):
+            return {}
+        ok = isinstance(res, tuple) and len(res) == 3 and isinstance(res[0], NdArr) and type(res[1]).__name__ == "SymMap"
+        out = {"association_mapping_leaves": z3.BoolVal(ok)}
+        if not ok:
+            return out
+        assoc, mp, leaves = res
+        st = a.binner.fields["$state"]
+        isleaf, K, rank, unrank = a._leaf
+        m = z(a._m)
+        allleaves = lambda j: z3.And(j >= 0, j < m, isleaf(j))
+        facts = MappingTrain._facts(E, old["X"], st, mp, assoc, mp.count, allleaves, rank)
+        out.update(facts)
+        r = z3.Int(models.fresh_name("r"))
+        n = z(a.X.shape[0])
+        out["every_training_row_gets_a_bucket"] = z3.And(z(assoc.shape[0]) == n, z3.ForAll([r], z3.Implies(z3.And(r >= 0, r < n), z3.And(
+            assoc.get(r) >= 0, assoc.get(r) < z3.ToReal(z(mp.count))))))
+        t = z3.Int(models.fresh_name("t"))
+        out["leaves_lists_all_leaves_of_the_tree"] = z3.And(z(leaves.length) == z(K), z3.ForAll([t], z3.Implies(z3.And(t >= 0, t < z(K)), allleaves(z(leaves.item(t))))))
+        out["training_data_not_written"] = z3.BoolVal(a.X.cell.writes == old["w"])
+        # ... which is the well-formedness transform_bins requires of (binner_, leaves_, mapping_) - with one local model per mapping entry
+        wf = _wf_tree(E, st, leaves, mp)
+        out["establishes_what_transform_bins_requires_leaves"] = z3.And(wf["at_least_one_leaf"], wf["leaves_are_nodes_of_the_tree"])
+        out["establishes_what_transform_bins_requires_one_leaf_per_row"] = wf["every_row_ends_in_exactly_one_leaf"]
+        key = z3.Int(models.fresh_name("key"))
+        out["establishes_what_predict_requires_mapping_values_are_positions_of_local_models"] = z3.ForAll([key], z3.Implies(
+            z3.Select(mp.member, key), z3.And(z3.Select(mp.value, key) >= 0, z3.Select(mp.value, key) < z(mp.count))))
+        return out
 
 
 @contract(P + "::PiecewiseEstimator.fit", "C08")
@@ -391,10 +494,13 @@ class Fit(Contract):
 
 META = dict(
     level="proof", assumptions=["A1", "A2", "A6", "A7", "A8", "A9"],
-    trusted=["_mapping_train is ASSUMED (training-time construction of mapping_ / leaves_): one bucket id in [0, nb) per training row, nb entries",
-             "object invariant of a fitted estimator, stated as a PRECONDITION of predict / transform_bins (established by fit, whose proof covers it only "
-             "through the assumed _mapping_train): mapping_ sends bucket keys to positions of estimators_; for a tree binner leaves_ are node ids and "
-             "every row's decision path contains exactly one of them (scikit-learn trees - assumed)",
+    trusted=["_mapping_train, TREE binner: PROVED on its own (real loop over the leaves, dictionary of unbounded symbolic size): buckets numbered 0..len-1 "
+             "without repetition, every training row carries the number of its leaf, leaves_ = all leaves, and this IS the well-formedness "
+             "transform_bins / predict require.  The discretizer branch of _mapping_train (sets of tuples, sorted) is bounded only, and fit uses a "
+             "summary of _mapping_train with 1..2 buckets (concrete dictionary) - the link summary <-> proved postcondition is by inspection",
+             "object invariant of a fitted estimator, stated as a PRECONDITION of predict / transform_bins: mapping_ sends bucket keys to positions of "
+             "estimators_; for a tree binner leaves_ are node ids and every row's decision path contains exactly one of them (scikit-learn trees: "
+             "a node is a leaf iff both children ids are <= its id, decision_path marks exactly one leaf per row - assumed)",
              "ASSUMED scipy/scikit-learn models (pyvc/sparsemodel.py): a sparse matrix stands for a dense array (m[:, j], m == c, row iteration, "
              ".todense()); decision_path / transform are row-wise functions of the fitted binner; tuple(row) of an integer row is a key that is a "
              "function of the row's entries",
